@@ -33,6 +33,8 @@ func (fc *fnCtx) envAt(st, old *State) *Env {
 	return e
 }
 
+type astExpr = ast.Expr
+
 func parseExprOrBail(s string) ast.Expr {
 	e, err := parser.ParseExpr(s)
 	if err != nil {
@@ -602,7 +604,9 @@ func (env *Env) evalCall(e *ast.CallExpr) Val {
 				sub.vars[k] = v
 			}
 			sub.vars[name] = intVal(bv)
+			fc.inQuant++
 			body := sub.evalBool(e.Args[3])
+			fc.inQuant--
 			rng := And(App("<=", lo.T, bv), App("<", bv, hi.T))
 			if id.Name == "forall" {
 				return boolVal(fmt.Sprintf("(forall ((%s Int)) %s)", bv, Imp(rng, body)))
@@ -647,6 +651,15 @@ func (env *Env) evalCall(e *ast.CallExpr) Val {
 			return boolVal(And(Not(Eq(m.T, "nilR")), Select(Select(fc.H(env.st, d), m.T), k.T)))
 		case "int", "int64", "uint", "uint32", "uint64":
 			return env.eval(e.Args[0])
+		case "real":
+			x := env.eval(e.Args[0])
+			if x.Sort == "Real" {
+				return x
+			}
+			return Val{T: App("to_real", x.T), Sort: "Real"}
+		case "toint":
+			x := env.eval(e.Args[0])
+			return intVal(App("to_int", x.T))
 		case "sameelems":
 			// sameelems(s, lo, hi): elements lo..hi-1 of s are unchanged since old state
 			s := env.eval(e.Args[0])
@@ -662,6 +675,9 @@ func (env *Env) evalCall(e *ast.CallExpr) Val {
 		// spec function
 		if sp := fc.g.CS.Specs[id.Name]; sp != nil {
 			return env.applySpec(sp, e.Args)
+		}
+		if ns := nativeSpecs[id.Name]; ns != nil {
+			return env.applyNative(id.Name, ns, e.Args)
 		}
 		// package-level function of the current package with a pure contract
 		if env.pkg != nil {
@@ -812,7 +828,11 @@ func (env *Env) applySpec(sp *SpecFn, argExprs []ast.Expr) Val {
 	if len(argExprs) != len(sp.Params) {
 		bail("spec %s: arity", sp.Name)
 	}
-	specEnv := &Env{fc: fc, st: env.st, old: env.old, pkg: fc.g.pkgByPath[sp.PkgPath], vars: map[string]Val{}, unfold: env.unfold + 1}
+	rec := fc.g.specRecursive(sp.Name)
+	specEnv := &Env{fc: fc, st: env.st, old: env.old, pkg: fc.g.pkgByPath[sp.PkgPath], vars: map[string]Val{}, unfold: env.unfold}
+	if rec {
+		specEnv.unfold++
+	}
 	var asorts, aterms []string
 	for i, a := range argExprs {
 		v := env.eval(a)
@@ -851,7 +871,7 @@ func (env *Env) applySpec(sp *SpecFn, argExprs []ast.Expr) Val {
 		app = App(sym, aterms...)
 	}
 	res := Val{T: app, Sort: rs, Typ: rt}
-	if sp.Def != "" && env.unfold < fc.g.UnfoldDepth {
+	if sp.Def != "" && (!rec || env.unfold < fc.g.UnfoldDepth) && fc.inQuant == 0 {
 		key := "spec:" + app
 		if !fc.pureDone[key] {
 			fc.pureDone[key] = true
@@ -859,7 +879,7 @@ func (env *Env) applySpec(sp *SpecFn, argExprs []ast.Expr) Val {
 			if body.Sort != rs {
 				bail("spec %s: body sort %s, want %s", sp.Name, body.Sort, rs)
 			}
-			fc.sc.Axiom(Eq(app, body.T))
+			fc.sc.Axiom(Eq(app, body.T), sym)
 		}
 	}
 	return res
